@@ -11,7 +11,7 @@ git checkout -q -- .
 DEMOCMD=$(grep -v '^#' $OUT/demo_cmd.txt | grep . | grep 'go test\|go run' | tail -1)
 # make sure the demonstration file sits in the package the command tests
 PKG=$(echo "$DEMOCMD" | grep -o '\./pkg/[A-Za-z0-9_/.-]*' | head -1 | sed 's#/\.\.\.$##')
-for f in $OUT/*_test.go; do [ -f "$f" ] && [ -n "$PKG" ] && [ -d "$WT/$PKG" ] && [ ! -f "$WT/$PKG/$(basename $f)" ] && cp "$f" "$WT/$PKG/"; done
+for f in $OUT/*_test.go; do [ -f "$f" ] && [ -n "$PKG" ] && [ -d "$WT/$PKG" ] && [ -z "$(find $WT/pkg $WT/hack -name $(basename $f) 2>/dev/null | head -1)" ] && cp "$f" "$WT/$PKG/"; done
 echo "== demo WITHOUT change: $DEMOCMD"; ( eval "$DEMOCMD" ) > /tmp/confirm.$$.a 2>&1; RA=$?; tail -3 /tmp/confirm.$$.a | cut -c1-200
 git apply $OUT/patch.diff || { echo "PATCH DOES NOT APPLY"; exit 1; }
 echo "== demo WITH change"; ( eval "$DEMOCMD" ) > /tmp/confirm.$$.b 2>&1; RB=$?; tail -6 /tmp/confirm.$$.b | cut -c1-200
